@@ -20,7 +20,9 @@ import re
 import vlib
 from vlib import log
 
-FIELDS = ["bls_fq", "bls_fp", "jub_fr", "secp_fp", "secp_fq", "c25519_fp", "c25519_scalar", "bn_fq", "bn_fr", "bls_fp2", "bn_fq2"]
+FIELDS = ["bls_fq", "bls_fp", "jub_fr", "secp_fp", "secp_fq", "c25519_fp", "c25519_scalar", "bn_fq", "bn_fr", "bls_fp2", "bn_fq2",
+          "bls_fp6", "bn_fq6", "bls_fp12", "bn_fq12"]
+BN_P = 0x30644e72e131a029b85045b68181585d97816a916871ca8d3c208c16d87cfd47
 
 
 def selftest():
@@ -48,15 +50,19 @@ def iv(n):
 
 
 def show(x):
-    if x and isinstance(x[0], list) or (len(x) == 2 and x[0] == [] and isinstance(x[1], list)):
-        return [hex(iv(c))[:24] for c in x]
-    return hex(iv(x))[:40]
+    if any(isinstance(c, list) for c in x):
+        return [show(c) for c in x]
+    return hex(iv(x))[:24]
 
 
 def cls(e):
-    if e["op"] in ("constants", "from_repr", "from_uniform_bytes", "repr_roundtrip"):
+    if e["op"] in ("constants", "prime_constants", "from_repr", "from_bytes", "from_uniform_bytes", "repr_roundtrip", "bytes_roundtrip"):
         return e["op"]
     x = e["ins"][0]
+    if e["op"] == "lex_largest" and e["field"] == "bn_fq2" and iv(x[1]) == (BN_P - 1) // 2:
+        return "c1=(p-1)/2"
+    if e["field"] in ("bls_fp6", "bn_fq6", "bls_fp12", "bn_fq12"):
+        return "tower"
     if isinstance(x[0] if x else 0, list):
         return "c1=0" if not x[1] else "general"
     return "zero" if not x else "nonzero"
@@ -67,7 +73,7 @@ def run(tier):
     wd = vlib.workdir("C10")
     nself = selftest()
     log(f"[C10] BigNat self-test: Java override and TLA+ definitions agree ({nself} characters of results)")
-    jobs = [["c10", os.path.join(wd, f"trace_{f}.ndjson"), f] for f in FIELDS]
+    jobs = [["c10", os.path.join(wd, f"trace_{f}.ndjson"), f] + (["deep"] if tier == "thorough" else []) for f in FIELDS]
     vlib.run_vh_parallel(jobs, timeout=3600)
     row_sets = []
     for j in jobs:
@@ -110,7 +116,7 @@ def run(tier):
         "exhaustive": False,
     })
     rep.assumptions += ["elements are converted to integers through the types' own canonical encodings (to_repr / to_biguint)",
-                        "Fp6, Fp12 and the BN254 sextic/duodecic towers are not covered; Montgomery-form internals only through results"]
+                        "Fp6 / Fp12 of both pairing curves are covered by the schoolbook tower of Tower.tla (sqrt is unimplemented there in the code); Montgomery-form internals only through results"]
     return rep.finish()
 
 
